@@ -40,6 +40,9 @@ def run(c, facts, tier):
     from .. import glue
 
     glue.obligations(c, facts, b, "C13")
+    from .. import report as _rep
+
+    _rep.require(c, facts, "c07", "C13.threads", "-threads", "every decimal thread count is read exactly", lambda o: o["rule"] == "C07.convert" and ("u32" in o["site"] or "-threads" in o["instance"]), "the value of -threads N is read by the u32 parser decided by C07.convert")
     inner = an.role("parse_inner")
     infn = facts.fn(inner)
     tokfn = an.role("token")
